@@ -86,6 +86,22 @@ def run (o : Oracle) (fuel : Nat) : List Call → St → Trace → Out (St × Tr
     | .panic => .panic
     | .fuel => .fuel
 
+/-- bytes a call offers -/
+def Call.len : Call → Nat
+  | .stream _ chunk _ => chunk.length
+  | _ => 0
+
+/-- total number of bytes a history offers -/
+def histLen : List Call → Nat
+  | [] => 0
+  | c :: cs => c.len + histLen cs
+
+/-- operation codes in range -/
+def HistOK : List Call → Prop
+  | [] => True
+  | .stream op _ _ :: cs => op ≤ 3 ∧ HistOK cs
+  | _ :: cs => HistOK cs
+
 /-- everything produced so far as bits: delivered bytes, pending bytes, carry -/
 def deliveredBits (t : Trace) (s : St) : List Bool := bytesBits (t.delivered ++ s.pending) ++ s.carry
 
